@@ -151,6 +151,9 @@ def main(argv=None):
         rc = _run(prop, tier, seed, n_workers, t_start)
     finally:
         shutil.rmtree(cache_dir, ignore_errors=True)
+        if os.path.exists(cache_dir):     # a terminating worker may re-create its (empty) directory: once more
+            time.sleep(0.5)
+            shutil.rmtree(cache_dir, ignore_errors=True)
     return rc
 
 
